@@ -193,6 +193,22 @@ func c13Scenarios(tier string) []*core.Scenario {
 			src = "pre:\n" + src
 			return one("zoo", fmt.Sprintf("%q", src), src, feat("template", t, "operand", z))
 		}})
+	// EQU definition graphs: every assignment of a body form to three names, then every name used
+	bodies := c13EquBodies()
+	scs = append(scs, &core.Scenario{Name: "equ_graphs", Bound: -1,
+		Rule:   "all EQU definition graphs over three names: each of A, B, C gets a body from {1} + {X, X+1, X*2, 2*X, X-3, (X+1)*2, X+Y: X, Y in {A,B,C}} (self-references and cycles of every shape through arithmetic included), followed by uses of all three names as immediate, data item and displacement; liveness oracle",
+		Bounds: map[string]any{"names": 3, "body_forms": len(bodies)},
+		Build: func(c *core.Chooser) *core.Case {
+			var sb strings.Builder
+			var key []string
+			for _, n := range []string{"A", "B", "C"} {
+				b := bodies[c.Pick("body_"+n, len(bodies))]
+				key = append(key, b)
+				fmt.Fprintf(&sb, "%s EQU %s\n", n, b)
+			}
+			sb.WriteString("\tMOV AX,C\n\tDB A,B\n\tMOV CX,[BX+B]\n\tDW C+A\n")
+			return one("equ", strings.Join(key, " | "), sb.String(), feat("a", key[0], "b", key[1], "c", key[2]))
+		}})
 	// C07's operand space under the liveness oracle
 	ar := 2
 	kinds := c07Kinds
@@ -217,6 +233,22 @@ func c13Scenarios(tier string) []*core.Scenario {
 			return one("mnop", strings.TrimSpace(mn+" "+strings.Join(ts, ",")), src, feat("mn", mn, "arity", fmt.Sprint(n)))
 		}})
 	return scs
+}
+
+func c13EquBodies() []string {
+	out := []string{"1"}
+	ns := []string{"A", "B", "C"}
+	for _, x := range ns {
+		out = append(out, x, x+"+1", x+"*2", "2*"+x, x+"-3", "("+x+"+1)*2")
+	}
+	if true {
+		for _, x := range ns {
+			for _, y := range ns {
+				out = append(out, x+"+"+y)
+			}
+		}
+	}
+	return out
 }
 
 var c13Templates = []string{"A EQU {}\n\tMOV AX,A", "A EQU B\nB EQU {}\n\tDB A", "A EQU {}+1\n\tDW A", "MOV AX,{}", "MOV {},AX", "MOV EAX,{}", "JMP {}", "JE {}", "CALL {}", "DB {}", "DW {}", "DD {}", "RESB {}", "INT {}", "PUSH {}", "POP {}", "IN AL,{}", "OUT {},AL",
@@ -258,9 +290,24 @@ var c13Families = []scaleFamily{
 	{"string", func(n int) string { return "\tDB \"" + strings.Repeat("a", n) + "\"\n" }},
 	{"comment", func(n int) string { return "\tNOP ; " + strings.Repeat("c", n) + "\n" }},
 	{"identifier", func(n int) string { return strings.Repeat("i", n) + ":\n\tJMP " + strings.Repeat("i", n) + "\n" }},
-	{"nested_parens_label_imm", func(n int) string { return "fin:\n\tMOV AX," + strings.Repeat("(", n) + "fin" + strings.Repeat(")", n) + "\n" }},
-	{"nested_parens_label_jmp", func(n int) string { return "fin:\n\tJMP " + strings.Repeat("(", n) + "fin" + strings.Repeat(")", n) + "\n" }},
-	{"nested_parens_mem", func(n int) string { return "\tMOV AX,[BX+" + strings.Repeat("(", n) + "1" + strings.Repeat(")", n) + "]\n" }},
+	{"nested_parens_label_imm", func(n int) string {
+		return "fin:\n\tMOV AX," + strings.Repeat("(", n) + "fin" + strings.Repeat(")", n) + "\n"
+	}},
+	{"nested_parens_label_jmp", func(n int) string {
+		return "fin:\n\tJMP " + strings.Repeat("(", n) + "fin" + strings.Repeat(")", n) + "\n"
+	}},
+	{"nested_parens_mem", func(n int) string {
+		return "\tMOV AX,[BX+" + strings.Repeat("(", n) + "1" + strings.Repeat(")", n) + "]\n"
+	}},
+	// deep nesting behind lines that a pre-scan of the raw text could mis-read (quotes and brackets in comments,
+	// a quote as character literal), and deep nesting that is only data (inside a string, inside a comment)
+	{"nested_parens_after_quote_comment", func(n int) string {
+		return "; 3.5\" floppy (boot\n\tDB '\"'\n\tDD " + strings.Repeat("(", n) + "1" + strings.Repeat(")", n) + "\n"
+	}},
+	{"nested_parens_in_string", func(n int) string { return "\tDB \"" + strings.Repeat("(", n) + "\"\n\tDB 1\n" }},
+	{"nested_parens_in_comment", func(n int) string { return "\tDB 1 ; " + strings.Repeat("(", n) + "\n\tDB 2\n" }},
+	{"nested_brackets", func(n int) string { return "\tMOV AX," + strings.Repeat("[", n) + "BX" + strings.Repeat("]", n) + "\n" }},
+	{"unary_minus_chain", func(n int) string { return "\tDD " + strings.Repeat("-", n) + "1\n" }},
 	{"equ_uses", func(n int) string { return "K EQU 7\n" + strings.Repeat("\tDB K*2,K\n", n) }},
 	{"mem_sum", func(n int) string { return "\tMOV AX,[BX+1" + strings.Repeat("+1", n) + "]\n" }},
 }
@@ -283,7 +330,13 @@ func c13Scaling(r *core.Run, tier string) {
 	for _, f := range c13Families {
 		rw := row{Family: f.name}
 		prev := 0.0
-		for _, n := range sizes {
+		fsizes := sizes
+		if tier != "thorough" && strings.HasPrefix(f.name, "nested_") {
+			// the nesting families go to 10^5 in the quick tier as well: that is where a recursive parser dies, and it
+			// costs nothing while the nesting guard refuses the input up front
+			fsizes = append(append([]int{}, sizes...), 100000)
+		}
+		for _, n := range fsizes {
 			src := f.gen(n)
 			best := -1.0
 			var last *core.Result
